@@ -43,6 +43,7 @@ theorem frameEnd_inv {cfg : Cfg} {top : JFrame} {rest : List JFrame} {r : Interp
   obtain ⟨⟨res, w1⟩, hret, h⟩ := bind_ok h
   have hd : w1.js.depth = rest.length := by
     have : w1.js.depth = decU64 w.js.depth := by
+      unfold frameReturn at hret
       split at hret
       · exact callReturn_depth hret
       · exact createReturn_depth hret
